@@ -1402,6 +1402,11 @@ impl<'de, R: Read<'de>> Parser<R> {
         let f: f64 = unsafe { str::from_utf8_unchecked(&self.scratch) }
             .parse()
             .map_err(|_| self.error(ErrorCode::NumberOutOfRange))?;
+        // The standard library rounds too-large magnitudes to infinity
+        // instead of failing.
+        if f.is_infinite() {
+            return Err(self.error(ErrorCode::NumberOutOfRange));
+        }
         if !pos {
             return Ok(f * -1.0);
         }
